@@ -22,6 +22,8 @@ import threading
 import vlib
 
 H = "h_bounds"
+LEAN_MODULES = ["BFL.Model.Bounds.Algebra", "BFL.Model.Bounds.Models", "BFL.Model.Bounds.Sigma", "BFL.Model.Bounds.Particles", "BFL.Model.Bounds.Cases",
+                "BFL.Proofs.Bounds", "BFL.Proofs.BoundsSigma", "BFL.Proofs.BoundsCorr", "BFL.Proofs.BoundsPart", "BFL.Props.C14"]
 
 LAYOUTS_SMALL = [(dl, dc, q) for dl in range(0, 4) for dc in range(0, 3) for q in (0, 1) if not (q == 1 and dc == 0)]
 
@@ -543,6 +545,145 @@ def aggregate_other_evidence():
     return agg
 
 
+def branch_tags(line, group, hk, hp):
+    """which branches of the anchored functions (and of the model) a case drives; counted in the evidence"""
+    t = line.split()
+    tags = []
+    try:
+        if group in ("ssm", "sls"):
+            toks = hp.split()
+            T = int(t[2])
+            tags.append("SimulatedStateModel:ctor T=0 (guarded col(0))" if T == 0 else "SimulatedStateModel:ctor T>0")
+            if T > 1:
+                tags.append("SimulatedStateModel:ctor motion loop")
+            if any(x == "0" for x in toks):
+                tags.append("bufferData/freeze:exhausted -> false")
+            if any(x.startswith("1:") for x in toks):
+                tags.append("bufferData/freeze:data -> true")
+        elif group == "grid":
+            nx, ny, N = int(t[1]), int(t[2]), int(t[3])
+            rows = dim_of(int(t[4]), int(t[5]), int(t[6]))
+            tags.append("grid:count mismatch -> false" if N != nx * ny else ("grid:state not 4-dimensional -> false" if rows != 4 else ("grid:filled" if N else "grid:empty grid")))
+        elif group == "hist":
+            w, n = 5, 0
+            for op in t[2:]:
+                k, a = op[0], int(op[1:] or 0)
+                if k == "a":
+                    n += 1
+                    if n > w:
+                        n -= 1
+                        tags.append("addElement:pop_back")
+                    else:
+                        tags.append("addElement:grow")
+                elif k in "sdi":
+                    req = a if k == "s" else (w - 1 if k == "d" else w + 1)
+                    if req == w:
+                        tags.append("setHistorySize:same window")
+                        continue
+                    tmp = 2 if req < 2 else (30 if req >= 30 else req)
+                    tags.append("setHistorySize:clamp to 2" if req < 2 else ("setHistorySize:clamp to 30" if req >= 30 else "setHistorySize:in range"))
+                    if tmp < w and tmp < n:
+                        n = tmp
+                        tags.append("setHistorySize:pop excess")
+                    else:
+                        tags.append("setHistorySize:nothing to pop")
+                    w = tmp
+                elif k == "c":
+                    n = 0
+                    tags.append("clear")
+                elif k == "g":
+                    tags.append("getHistoryBuffer:empty" if n == 0 else "getHistoryBuffer:columns")
+                elif k == "m":
+                    tags.append("move")
+        elif group == "lm":
+            n, rr, rc, k = int(t[1]), int(t[2]), int(t[3]), int(t[5])
+            comps = [int(x) for x in t[6:6 + k]]
+            if k == 0 or n == 0:
+                tags.append("LinearModel:throw empty H")
+            elif rr == 0 or rc == 0:
+                tags.append("LinearModel:throw empty R")
+            elif rr != rc:
+                tags.append("LinearModel:throw non-square R")
+            elif k != rr:
+                tags.append("LinearModel:throw H/R size mismatch")
+            elif any(c >= n for c in comps):
+                tags.append("LinearModel:throw component out of bound")
+            else:
+                tags.append("LinearModel:constructed")
+        elif t[0] == "b_ukfc":
+            kind = int(t[1])
+            mv, pv, iv = int(t[22]), int(t[23]), int(t[24])
+            name = ("UKF generic", "UKF additive", "SUKF")[kind]
+            if not mv:
+                tags.append(name + ":no measurement -> copy")
+            elif kind == 2 and int(t[25]) > 0 and dim_of(int(t[14]), int(t[15]), int(t[16])) % int(t[25]) != 0:
+                tags.append("SUKF:measurement size not a multiple of the sub-size -> copy")
+            elif not pv:
+                tags.append(name + ":prediction failed -> copy")
+            elif not iv:
+                tags.append(name + ":innovation failed -> copy")
+            else:
+                tags.append(name + ":update")
+                if kind == 2:
+                    tags.append("SUKF:reduced R" if int(t[26]) else "SUKF:full R")
+            if hk == "ok" and hp.split()[-2:-1] == ["1"]:
+                tags.append("getLikelihood:evaluated")
+            elif hk == "ok":
+                tags.append("getLikelihood:not available")
+        elif group == "kf":
+            tags.append("KF:update" if int(t[12]) else "KF:no measurement -> copy")
+        elif group == "gmaug":
+            r1, c1, r2, c2 = int(t[5]), int(t[6]), int(t[7]), int(t[8])
+            tags.append("augmentWithNoise:non-square -> false" if r1 != c1 else "augmentWithNoise:augmented")
+            if r2 + c2 > 0:
+                tags.append("augmentWithNoise:second augmentation")
+            if int(t[1]) > 1:
+                tags.append("augmentWithNoise:blocks moved right to left")
+        elif group in ("gmresize", "psresize"):
+            off = 6 if group == "gmresize" else 5
+            K, dl, dc = int(t[1]), int(t[2]), int(t[3])
+            K2, dl2, dc2 = int(t[off]), int(t[off + 1]), int(t[off + 2])
+            q = int(t[4])
+            if (K, dl, dc) == (K2, dl2, dc2):
+                tags.append("resize:nothing to do")
+            elif dim_of(dl, dc, q) == dim_of(dl2, dc2, q) and dcov_of(dl, dc, q) == dcov_of(dl2, dc2, q) and K != K2:
+                tags.append("resize:conservative (components only)")
+            else:
+                tags.append("resize:full")
+        elif group in ("ut", "utmm"):
+            if hk == "ok" and hp.split()[:1] == ["0"]:
+                tags.append("unscented_transform:function evaluation failed -> (false, default, 0x0)")
+            elif hk == "ok":
+                tags.append("unscented_transform:evaluated")
+        elif group in ("ee", "ee_perturbed"):
+            names = ["mean", "smean", "wmean", "emean", "mode", "smode", "wmode", "emode", "map", "smap", "wmap", "emap"]
+            m, full = int(t[3]), int(t[4])
+            tags.append("extract:%s%s" % (names[m], " (5 args)" if full else ""))
+            if m >= 8 and not full:
+                tags.append("extract:map-based method without previous weights -> not available")
+            if int(t[6]) == 1 and int(t[2]) > 0:
+                tags.append("directional_mean:single column shortcut")
+        elif group == "rwp":
+            N, a, b = int(t[1]), int(t[2]), int(t[3])
+            p = N * a // b
+            tags.append("ResamplingWithPrior:no prior particles" if p == 0 else "ResamplingWithPrior:prior + resampled")
+            if p > 0 and int(t[7]) * int(t[8]) == p:
+                tags.append("ResamplingWithPrior:initialiser accepts the prior subset")
+            elif p > 0:
+                tags.append("ResamplingWithPrior:initialiser refuses (ignored)")
+        elif group == "sp":
+            dl, dc, q, dn = int(t[2]), int(t[3]), int(t[4]), int(t[5])
+            if dl:
+                tags.append("sigma_point:linear block")
+            if dc:
+                tags.append("sigma_point:quaternion blocks" if q else "sigma_point:euler block")
+            if dn:
+                tags.append("sigma_point:noise block")
+    except (ValueError, IndexError):
+        pass
+    return tags
+
+
 ENTRY = {
     "wna_noise": "WhiteNoiseAcceleration::getNoiseSample", "wna_move": "WhiteNoiseAcceleration (moved) ::getNoiseSample",
     "wna_motion": "WhiteNoiseAcceleration::motion", "wna_tp": "WhiteNoiseAcceleration::getTransitionProbability",
@@ -590,7 +731,7 @@ def run(ctx):
     valid_clean = valid_abort = invalid_abort = invalid_clean = throws = 0
     prop_bad, corr_bad, notes = [], [], []
     inv_agree = inv_total = 0
-    branch_sites = {}
+    branch_sites, branch_hits = {}, {}
     for i, ((line, group), h, d) in enumerate(zip(cases, houts, douts)):
         hist_group[group] = hist_group.get(group, 0) + 1
         valid, dk, dp = parse_driver(d)
@@ -604,6 +745,8 @@ def run(ctx):
         oc = "%s/%s" % ("valid" if valid else "invalid", hk)
         hist_outcome[oc] = hist_outcome.get(oc, 0) + 1
         name = ENTRY.get(group, group)
+        for tag in branch_tags(line, group, hk, hp):
+            branch_hits[tag] = branch_hits.get(tag, 0) + 1
         if valid:
             if hk == "abort":
                 valid_abort += 1
@@ -651,6 +794,12 @@ def run(ctx):
                       {"harness": H, "input_line": line, "observed": h.strip()[:500], "model": d.strip()[:500],
                        "all_disagreeing_inputs": [c[2] for c in corr_bad[:50]]}, no_input=True)
 
+    if ctx.tier == "thorough" and not ctx.replay:
+        bad = vlib.leanchecker(LEAN_MODULES)
+        ctx.coverage["leanchecker"] = {"modules": LEAN_MODULES, "failed": [m for m, _ in bad]}
+        if bad:
+            ctx.violation("leanchecker", "independent re-check of the compiled proofs failed: %s" % bad[0][1][-300:], {"modules": [m for m, _ in bad]}, no_input=True)
+
     agg = aggregate_other_evidence()
     nontrivial = sum(1 for (l, g) in cases if g not in ("utw",))
     ctx.coverage.update({
@@ -672,6 +821,7 @@ def run(ctx):
         "invalid_side_agreement": "%d/%d" % (inv_agree, inv_total),
         "model_first_violated_site_histogram": dict(sorted(branch_sites.items(), key=lambda kv: -kv[1])[:60]),
         "distinct_violated_sites_hit": len(branch_sites),
+        "branch_histogram": dict(sorted(branch_hits.items())),
         "model_vs_impl_disagreements_on_valid": len(corr_bad), "property_failures_on_impl": len(prop_bad),
         "sanitizer_crashes": len(logs),
         "sanitizer_crashes_on_valid_input": valid_abort,
